@@ -19,7 +19,7 @@ compare = _c02.compare
 
 def batches(tier, seed):
     rng = rng_for(seed, 'C06')
-    n = 300 if tier == 'quick' else 5000
+    n = 1200 if tier == 'quick' else 8000
     cases = []
     for i in range(n):
         c = dsgcase.gen_sel(rng, n_incompat=rng.choice([1, 1, 2, 3]))
